@@ -1,13 +1,35 @@
 (* C12_Model.v — model of one hook execution: Hook.Run (pkg/hook/hook.go) and
    handleRunHook (pkg/shell-operator/operator.go).  Statement order is the code's:
    register the deferred removal of whatever temp file gets created (repair of F21), prepare
-   the five temp files in order (each can fail: a file name longer than NAME_MAX), run the hook, read metrics, admission
-   response, conversion response, patch file; then parse+apply the patch, then send the
-   metrics.  No proofs here. *)
-From Verif Require Import Common.
+   the five temp files in order (each can fail: a file name longer than NAME_MAX), run the hook,
+   read metrics (MetricOperationsFromFile), admission response, conversion response, patch file;
+   then parse+apply the patch, then SendBatch (ValidateOperations, then the registry).  No proofs here.
+
+   The CONTENT of the metrics, admission-response and conversion-response files is part of the
+   input ([FText s], any byte string); what the code makes of it is modelled down to
+   encoding/json's rules for decoding an object into a struct:
+     * the text is read with JsonText (RFC 8259 reader): metrics = json.Decoder until io.EOF
+       (parse_stream), admission = Decode + Token()==io.EOF (parse_single: one document, only
+       whitespace after it), conversion = ONE Decode and nothing else (parse_first: whatever
+       follows the first document is never looked at);
+     * object -> struct: a key selects the field with exactly that name, else the field whose
+       name is equal under Go's foldName (ASCII letters, plus U+017F -> S and U+212A -> K);
+       unknown keys are skipped; duplicate keys are processed in text order (last wins, a map
+       field is merged); `null` leaves a string/bool field as it is and sets a pointer, slice or map
+       field to nil; a value of another JSON type than the field's is an error (the whole
+       file is rejected); `null` as the document itself is a no-op (all fields zero);
+     * then, for metrics, the shortcut transform of MetricOperationsFromReader and the rules of
+       ValidateMetricOperation.
+   NOT modelled (the harness generators stay away from it): YAML (the patch file is one of the
+   four enum kinds only; [FText] in the patch position is outside the model), the base64 /
+   byte-array forms of the admission `patch` field (type []byte: a JSON string or array is
+   accepted here without looking inside), float64 overflow (1e999), invalid UTF-8, nesting
+   deeper than 10000, and what prometheus does with a metric beyond "a family of that name
+   appears" (see [metric_effect]). *)
+From Verif Require Import Common Json JsonText.
 Open Scope N_scope.
 
-Inductive fkind := FEmpty | FValid | FTruncated | FWrongType.
+Inductive fkind := FEmpty | FValid | FTruncated | FWrongType | FText (s : list N).
 
 Record input := mkIn {
   i_exit : Z;
@@ -30,27 +52,319 @@ Fixpoint prepare (ls : list N) (created : N) : N * bool :=
   | l :: r => if N.leb l name_max then prepare r (created + 1) else (created, false)
   end.
 
+(* ------------------------------------------------------------------ encoding/json: object -> struct *)
+
+(* foldName (Go >= 1.21): ASCII letters to upper case; a rune whose simple-fold orbit contains an
+   ASCII letter becomes that (upper-case) letter: U+017F LATIN SMALL LETTER LONG S (C5 BF) -> S,
+   U+212A KELVIN SIGN (E2 84 AA) -> K; other runes fold to non-ASCII runes, which can never be equal
+   to the fold of an ASCII field name, so their bytes are left as they are. *)
+Fixpoint fold_key (s : bytes) : bytes :=
+  match s with
+  | [] => []
+  | c :: r =>
+    if (97 <=? c) && (c <=? 122) then (c - 32) :: fold_key r
+    else if c =? 197 then
+      match r with
+      | c2 :: r2 => if c2 =? 191 then 83 :: fold_key r2 else c :: fold_key r
+      | [] => [c]
+      end
+    else if c =? 226 then
+      match r with
+      | c2 :: c3 :: r3 => if (c2 =? 132) && (c3 =? 170) then 75 :: fold_key r3 else c :: fold_key r
+      | _ => c :: fold_key r
+      end
+    else c :: fold_key r
+  end.
+
+(* Go types of the struct fields that occur *)
+Inductive ftype :=
+| TStr        (* string *)
+| TBool       (* bool *)
+| TNumPtr     (* *float64 *)
+| TNums       (* []float64 *)
+| TStrs       (* []string *)
+| TStrMap     (* map[string]string *)
+| TBytes      (* []byte: base64 string or array of small numbers - content NOT modelled *)
+| TRaws.      (* []runtime.RawExtension: an array of arbitrary values *)
+Definition schema := list (bytes * ftype).
+
+Inductive fval :=
+| VUnset                                (* zero value: "", false, nil *)
+| VStr (s : bytes) | VBool (b : bool) | VNum (lit : bytes)
+| VNums (l : list bytes) | VStrs (l : list bytes) | VMap (m : list (bytes * bytes))
+| VRaws (n : N) | VBytes.
+Definition state := list (bytes * fval).   (* latest binding first *)
+
+Fixpoint sget (st : state) (n : bytes) : fval :=
+  match st with
+  | [] => VUnset
+  | (k, v) :: r => if bytes_eqb k n then v else sget r n
+  end.
+
+Fixpoint find_field (p : bytes -> bool) (sch : schema) : option (bytes * ftype) :=
+  match sch with
+  | [] => None
+  | f :: r => if p (fst f) then Some f else find_field p r
+  end.
+(* byExactName, else byFoldedName (the first field with that folded name) *)
+Definition field_of (sch : schema) (k : bytes) : option (bytes * ftype) :=
+  match find_field (fun n => bytes_eqb n k) sch with
+  | Some f => Some f
+  | None => find_field (fun n => bytes_eqb (fold_key n) (fold_key k)) sch
+  end.
+
+Fixpoint map_opt {A B} (f : A -> option B) (l : list A) : option (list B) :=
+  match l with
+  | [] => Some []
+  | x :: r => match f x, map_opt f r with
+              | Some y, Some ys => Some (y :: ys)
+              | _, _ => None
+              end
+  end.
+
+Definition num_lit (j : json) : option bytes :=
+  match j with JFlt t => Some t | JNum z => Some (print_Z z) | _ => None end.
+Definition num_elem (j : json) : option bytes :=
+  match j with JNull => Some [48] | _ => num_lit j end.                       (* null element: stays 0 *)
+Definition str_elem (j : json) : option bytes :=
+  match j with JNull => Some [] | JStr s => Some s | _ => None end.            (* null element: stays "" *)
+Definition map_elem (kv : bytes * json) : option (bytes * bytes) :=
+  match str_elem (snd kv) with Some s => Some (fst kv, s) | None => None end.
+
+(* storing a JSON value into a field of type [t] holding [old]; None = UnmarshalTypeError *)
+Definition store (t : ftype) (old : fval) (v : json) : option fval :=
+  match v with
+  | JNull => Some (match t with TStr | TBool => old | _ => VUnset end)
+  | _ =>
+    match t with
+    | TStr => match v with JStr s => Some (VStr s) | _ => None end
+    | TBool => match v with JBool b => Some (VBool b) | _ => None end
+    | TNumPtr => option_map VNum (num_lit v)
+    | TNums => match v with JArr l => option_map VNums (map_opt num_elem l) | _ => None end
+    | TStrs => match v with JArr l => option_map VStrs (map_opt str_elem l) | _ => None end
+    | TStrMap => match v with
+                 | JObj kv => match map_opt map_elem kv with
+                              | Some new => Some (VMap ((match old with VMap m => m | _ => [] end) ++ new))
+                              | None => None
+                              end
+                 | _ => None
+                 end
+    | TRaws => match v with JArr l => Some (VRaws (N.of_nat (length l))) | _ => None end
+    | TBytes => match v with JStr _ | JArr _ => Some VBytes | _ => None end
+    end
+  end.
+
+Fixpoint decode_members (sch : schema) (m : list (bytes * json)) (st : state) : option state :=
+  match m with
+  | [] => Some st
+  | (k, v) :: r =>
+    match field_of sch k with
+    | None => decode_members sch r st                       (* unknown key: the value is skipped *)
+    | Some (n, t) =>
+      match store t (sget st n) v with
+      | Some x => decode_members sch r ((n, x) :: st)
+      | None => None
+      end
+    end
+  end.
+
+Definition decode_struct (sch : schema) (j : json) : option state :=
+  match j with
+  | JObj m => decode_members sch m []
+  | JNull => Some []          (* null into a struct: nothing happens *)
+  | _ => None                 (* array, string, number, bool into a struct: UnmarshalTypeError *)
+  end.
+
+(* ------------------------------------------------------------------ the three JSON outputs *)
+
+Definition k_name : bytes := [110; 97; 109; 101].
+Definition k_add : bytes := [97; 100; 100].
+Definition k_set : bytes := [115; 101; 116].
+Definition k_value : bytes := [118; 97; 108; 117; 101].
+Definition k_buckets : bytes := [98; 117; 99; 107; 101; 116; 115].
+Definition k_labels : bytes := [108; 97; 98; 101; 108; 115].
+Definition k_group : bytes := [103; 114; 111; 117; 112].
+Definition k_action : bytes := [97; 99; 116; 105; 111; 110].
+Definition s_observe : bytes := [111; 98; 115; 101; 114; 118; 101].
+Definition s_expire : bytes := [101; 120; 112; 105; 114; 101].
+(* struct MetricOperation, in declaration order *)
+Definition metric_schema : schema :=
+  [(k_name, TStr); (k_add, TNumPtr); (k_set, TNumPtr); (k_value, TNumPtr); (k_buckets, TNums);
+   (k_labels, TStrMap); (k_group, TStr); (k_action, TStr)].
+
+Definition k_allowed : bytes := [97; 108; 108; 111; 119; 101; 100].
+Definition k_message : bytes := [109; 101; 115; 115; 97; 103; 101].
+Definition k_warnings : bytes := [119; 97; 114; 110; 105; 110; 103; 115].
+Definition k_patch : bytes := [112; 97; 116; 99; 104].
+(* struct admission.Response *)
+Definition admission_schema : schema :=
+  [(k_allowed, TBool); (k_message, TStr); (k_warnings, TStrs); (k_patch, TBytes)].
+
+Definition k_failedMessage : bytes := [102; 97; 105; 108; 101; 100; 77; 101; 115; 115; 97; 103; 101].
+Definition k_convertedObjects : bytes :=
+  [99; 111; 110; 118; 101; 114; 116; 101; 100; 79; 98; 106; 101; 99; 116; 115].
+(* struct conversion.Response *)
+Definition conversion_schema : schema := [(k_failedMessage, TStr); (k_convertedObjects, TRaws)].
+
+Definition str_of (v : fval) : bytes := match v with VStr s => s | _ => [] end.
+Definition is_set (v : fval) : bool := match v with VUnset => false | _ => true end.
+Definition labels_of (v : fval) : list (bytes * bytes) := match v with VMap m => m | _ => [] end.
+
+Record mop := mkMop {
+  m_name : bytes; m_group : bytes; m_action : bytes;
+  m_add : bool; m_set : bool; m_value : bool; m_buckets : bool;   (* non-nil *)
+  m_labels : list (bytes * bytes)
+}.
+
+(* the decoded struct, then the "shortcut transforms" of MetricOperationsFromReader *)
+Definition op_of_state (st : state) : mop :=
+  let add := is_set (sget st k_add) in
+  let set := is_set (sget st k_set) in
+  let a0 := str_of (sget st k_action) in
+  let v0 := is_set (sget st k_value) in
+  let a1 := if set && negb add then k_set else a0 in
+  let v1 := if set && negb add then true else v0 in
+  let a2 := if add && negb set then k_add else a1 in
+  let v2 := if add && negb set then true else v1 in
+  mkMop (str_of (sget st k_name)) (str_of (sget st k_group)) a2 add set v2
+        (is_set (sget st k_buckets)) (labels_of (sget st k_labels)).
+
+Definition is_nil (s : bytes) : bool := match s with [] => true | _ => false end.
+
+(* ValidateMetricOperation: true = no error *)
+Definition validate_op (o : mop) : bool :=
+  let a := m_action o in
+  let is a' := bytes_eqb a a' in
+  negb (is_nil a)
+  && (if is_nil (m_group o) then is k_set || is k_add || is s_observe
+      else is s_expire || is k_set || is k_add)
+  && negb (is_nil (m_name o) && is_nil (m_group o))
+  && negb (is_nil (m_name o) && negb (is_nil (m_group o)) && negb (is s_expire))
+  && negb (is k_set && negb (m_value o))
+  && negb (is k_add && negb (m_value o))
+  && negb (is s_observe && negb (m_value o))
+  && negb (is s_observe && negb (m_buckets o))
+  && negb (m_set o && m_add o).
+
+(* MetricOperationsFromFile: None = error.  (The code decodes and converts document by document and
+   stops at the first error; only error / no error and the operations are observable, so the text is
+   read as a whole first.) *)
+Definition metrics_ops (s : bytes) : option (list mop) :=
+  match s with
+  | [] => Some []
+  | _ => match parse_stream s with
+         | None => None
+         | Some docs => map_opt (fun d => option_map op_of_state (decode_struct metric_schema d)) docs
+         end
+  end.
+
+(* admission.ResponseFromFile: Decode, then Token() must report io.EOF *)
+Definition admission_ok (s : bytes) : bool :=
+  match s with
+  | [] => true
+  | _ => match parse_single s with
+         | Some d => match decode_struct admission_schema d with Some _ => true | None => false end
+         | None => false
+         end
+  end.
+
+(* conversion.ResponseFromFile: ONE Decode; the rest of the file is not read *)
+Definition conversion_ok (s : bytes) : bool :=
+  match s with
+  | [] => true
+  | _ => match parse_first s with
+         | Some (d, _) => match decode_struct conversion_schema d with Some _ => true | None => false end
+         | None => false
+         end
+  end.
+
+(* ------------------------------------------------------------------ what the harness can see of the metrics *)
+
+(* the metric family the harness looks for after the run *)
+Definition probe_name : bytes :=
+  [118; 101; 114; 105; 102; 95; 99; 49; 50; 95; 109; 101; 116; 114; 105; 99].   (* verif_c12_metric *)
+
+Definition is_alpha_ (c : N) : bool := ((97 <=? c) && (c <=? 122)) || ((65 <=? c) && (c <=? 90)) || (c =? 95).
+(* a label name prometheus registers: [a-zA-Z_][a-zA-Z0-9_]*, not starting with "__" *)
+Definition plain_label (k : bytes) : bool :=
+  match k with
+  | [] => false
+  | c :: r => is_alpha_ c && forallb (fun x => is_alpha_ x || is_digit x) r
+              && negb (match k with a :: b :: _ => (a =? 95) && (b =? 95) | _ => false end)
+  end.
+
+Inductive tri := TNo | TYes | TMaybe.
+(* After a successful SendBatch: is a family named [probe_name] in the hook metric registry?
+   TNo: no operation carries that name.  TYes: every operation of that name is ungrouped, a set or
+   an add, with registrable label names (the first of them creates the series).  TMaybe: prometheus
+   decides (grouped series, histograms and their buckets, label names it refuses) - not modelled. *)
+Definition metric_effect (ops : list mop) : tri :=
+  let cands := filter (fun o => bytes_eqb (m_name o) probe_name) ops in
+  match cands with
+  | [] => TNo
+  | _ => if forallb (fun o => is_nil (m_group o)
+                              && (bytes_eqb (m_action o) k_set || bytes_eqb (m_action o) k_add)
+                              && forallb (fun kv => plain_label (fst kv)) (m_labels o)) cands
+         then TYes else TMaybe
+  end.
+
+(* ------------------------------------------------------------------ the four files *)
+
 (* an empty file means "nothing to do"; a valid one parses; the others do not *)
-Definition parses (k : fkind) : bool := match k with FEmpty | FValid => true | _ => false end.
-Definition has_content (k : fkind) : bool := match k with FValid => true | _ => false end.
+Definition parses_kind (k : fkind) : bool := match k with FEmpty | FValid => true | _ => false end.
+
+(* MetricOperationsFromFile returns no error *)
+Definition metrics_decodes (k : fkind) : bool :=
+  match k with FText s => match metrics_ops s with Some _ => true | None => false end | _ => parses_kind k end.
+(* ValidateOperations (first thing SendBatch does) returns no error *)
+Definition metrics_valid (k : fkind) : bool :=
+  match k with
+  | FText s => match metrics_ops s with Some ops => forallb validate_op ops | None => false end
+  | _ => parses_kind k
+  end.
+Definition metrics_effect (k : fkind) : tri :=
+  match k with
+  | FText s => match metrics_ops s with Some ops => metric_effect ops | None => TNo end
+  | FValid => TYes
+  | _ => TNo
+  end.
+Definition admission_parses (k : fkind) : bool :=
+  match k with FText s => admission_ok s | _ => parses_kind k end.
+Definition conversion_parses (k : fkind) : bool :=
+  match k with FText s => conversion_ok s | _ => parses_kind k end.
+(* the patch file is YAML: outside the model, only the enum kinds are meaningful; a text counts as
+   empty when it is empty and as malformed otherwise (never generated) *)
+Definition patch_parses (k : fkind) : bool :=
+  match k with FText s => is_nil s | _ => parses_kind k end.
+Definition patch_has_content (k : fkind) : bool := match k with FValid => true | _ => false end.
 
 Record outcome := mkOut {
   o_started : bool;          (* the hook process was started *)
   o_success : bool;          (* err == nil from handleRunHook *)
   o_remaining : N;           (* temp files of this execution left behind when it ended *)
-  o_metric_applied : bool;
+  o_metric_applied : bool;   (* the probe family is in the registry ... *)
+  o_metric_unknown : bool;   (* ... unless this says the model does not predict it ([TMaybe]) *)
   o_patch_applied : bool
 }.
+
+Definition failed (patch_applied : bool) : outcome := mkOut true false 0 false false patch_applied.
 
 Definition run (i : input) : outcome :=
   let L := if N.eqb (i_namelen i) 0 then 4 else i_namelen i in
   let (created, ok) := prepare (name_lengths L) 0 in
-  if negb ok then mkOut false false (created - created) false false   (* early return: the deferred function removes the [created] files *)
+  if negb ok then mkOut false false (created - created) false false false   (* early return: the deferred function removes the [created] files *)
   else
     (* the deferred function removes all five files, whatever happens *)
-    if negb (Z.eqb (i_exit i) 0) then mkOut true false 0 false false
-    else if negb (parses (i_metrics i)) then mkOut true false 0 false false
-    else if negb (parses (i_admission i)) then mkOut true false 0 false false
-    else if negb (parses (i_conversion i)) then mkOut true false 0 false false
-    else if negb (parses (i_patch i)) then mkOut true false 0 false false
-    else mkOut true true 0 (has_content (i_metrics i)) (has_content (i_patch i)).
+    if negb (Z.eqb (i_exit i) 0) then failed false
+    (* Hook.Run *)
+    else if negb (metrics_decodes (i_metrics i)) then failed false
+    else if negb (admission_parses (i_admission i)) then failed false
+    else if negb (conversion_parses (i_conversion i)) then failed false
+    (* handleRunHook: the patch first ... *)
+    else if negb (patch_parses (i_patch i)) then failed false
+    (* ... then SendBatch, which validates all operations before it applies any *)
+    else if negb (metrics_valid (i_metrics i)) then failed (patch_has_content (i_patch i))
+    else mkOut true true 0
+           (match metrics_effect (i_metrics i) with TYes => true | _ => false end)
+           (match metrics_effect (i_metrics i) with TMaybe => true | _ => false end)
+           (patch_has_content (i_patch i)).
